@@ -1395,6 +1395,9 @@ class Distribution(ScalarDistribution):
         if self._rvs is not None:
             # Unsure if we should change this automatically.
             self._rv_mode = 'names'
+        else:
+            # Without names, the names mode cannot address anything.
+            self._rv_mode = 'indices'
 
     def to_html(self, digits=None, exact=None, tol=1e-9):  # pragma: no cover
         """
